@@ -288,6 +288,10 @@ func (x *Exec) nilCompare(op token.Token, v Term, t types.Type, e ast.Expr, env 
 			// a nil map is empty
 			d := x.W.datas[v.Sort]
 			x.W.Facts = append(x.W.Facts, fmt.Sprintf("(forall ((m %s)) (! (=> (%s m) (= (%s m) 0)) :pattern ((%s m))))", v.Sort, name, d.Fields[2].Sel, name))
+			// ... and has no keys
+			if ks, _ := arrayKV(d.Fields[0].Sort); ks != "" {
+				x.W.Facts = append(x.W.Facts, fmt.Sprintf("(forall ((m %s) (k %s)) (! (=> (%s m) (not (select (%s m) k))) :pattern ((%s m) (select (%s m) k))))", v.Sort, ks, name, d.Fields[0].Sel, name, d.Fields[0].Sel))
+			}
 		}
 		x.W.DeclareFun(name, []Sort{v.Sort}, SBool)
 		isNil = T("("+name+" "+v.S+")", SBool)
